@@ -194,6 +194,13 @@ fn main() {
             for _ in 0..nrand {
                 pool.push(gens::random_diagram(&mut r, &cfg));
             }
+            if arg_flag(&args, "--sf") {
+                // conditional scalar factors over the variables of the --rand configuration (default 0,1,2) on every pool diagram
+                let vars = if cfg.vars.is_empty() { vec![0, 1, 2] } else { cfg.vars.clone() };
+                for a in pool.iter_mut() {
+                    eng_compose::decorate_sf(a, &mut r, &vars);
+                }
+            }
             let npairs: usize = arg_num(&args, "--pairs", 100);
             use rand::Rng;
             let mut done = 0usize;
@@ -266,7 +273,7 @@ fn main() {
         "tograph" | "circops" | "eqcheck" | "extract" | "xsteps" => {
             // --enum n,maxlen,<alphabet>   exhaustive;  --random N --nq a..b --len a..b   seeded random
             let mut ncirc = 0usize;
-            let modes: Vec<&str> = vec!["plain", "simp", "postsel"];
+            let modes: Vec<&str> = vec!["plain", "simp", "postsel", "simp_postsel"];
             let al_of = |s: &str| match s {
                 "all" => circ::Alphabet::all(),
                 "unitary" => circ::Alphabet::unitary(),
@@ -350,8 +357,13 @@ fn main() {
                     if prev["n"] == cj["n"] {
                         eng_circ::record_eq_pair(&prev, &cj, "independent", tr);
                     }
-                    for (n2, gs2, how) in eng_circ::eq_variants(n, &gs, &mut r2, &al_eq) {
-                        eng_circ::record_eq_pair(&cj, &circ::ag_json(n2, &gs2), how, tr);
+                    for (vi, (n2, gs2, how)) in eng_circ::eq_variants(n, &gs, &mut r2, &al_eq).into_iter().enumerate() {
+                        let c2j = circ::ag_json(n2, &gs2);
+                        eng_circ::record_eq_pair(&cj, &c2j, how, tr);
+                        if graphs_every > 0 && (count + vi) % graphs_every == 0 {
+                            let k = count + 3 * vi;
+                            eng_circ::record_eq_graphs(&cj, &c2j, how, eng_circ::EQ_ROUTES[k % 8], eng_circ::EQ_ROUTES[(k / 8 + vi) % 8], tr);
+                        }
                     }
                     if let Some(c2) = eng_circ::reextract(&cj) {
                         eng_circ::record_eq_pair(&cj, &c2, "reextract", tr);
@@ -393,7 +405,10 @@ fn main() {
                     al2.twoq = vec![];
                     al2.pp = false;
                 }
-                let gs = circ::random_circuit(&mut r, n, len, &al2);
+                let mut gs = circ::random_circuit(&mut r, n, len, &al2);
+                if meas_boost {
+                    circ::add_measurements(&mut gs, n, &mut r);
+                }
                 handle(circ::ag_json(n, &gs), &mut tr);
                 ncirc += 1;
             }
